@@ -35,6 +35,20 @@ int main(int argc, char** argv) {
   for (int i = 3; i < argc; ++i) a.push_back(strtoll(argv[i], nullptr, 10));
   auto U = [&](size_t i) { return (unsigned int)a.at(i); };
   try {
+    if (op == "init_twice") {   // table construction on an object that already held another characteristic: c (then the table is checked)
+      long long c = a[0]; if (c > (1 << 20)) return 3;
+      auto isprime = [](long long n) { if (n < 2) return false; for (long long d = 2; d * d <= n; d++) if (n % d == 0) return false; return true; };
+      bool refused = false; std::vector<long long> inv;
+      try {
+        if (cls == "zp_ops") { Zp_field_operators<> f(7); f.set_characteristic((unsigned)c); for (long long k = 0; k < c; k++) inv.push_back(f.get_inverse((unsigned)k)); }
+        else if (cls == "zp_sh") { Shared_Zp_field_element<>::initialize(7); Shared_Zp_field_element<>::initialize((unsigned)c); for (long long k = 0; k < c; k++) inv.push_back(Shared_Zp_field_element<>((unsigned)k).get_inverse().get_value()); }
+        else if (cls == "field_zp") { Gudhi::persistent_cohomology::Field_Zp f; f.init(7); f.init((int)c); for (long long k = 0; k < c; k++) inv.push_back(f.inverse((int)k, 1).first); }
+        else return 3;
+      } catch (std::exception const&) { refused = true; }
+      if (refused != !isprime(c)) { printf("characteristic %lld: %s, but it is %sa prime\n", c, refused ? "refused" : "accepted", isprime(c) ? "" : "not "); return 1; }
+      if (!refused) for (long long k = 1; k < c; k++) if (inv[k] < 1 || inv[k] >= c || inv[k] * k % c != 1) { printf("after re-initialising to %lld: inverse(%lld) = %lld, but %lld * %lld mod %lld = %lld\n", c, k, inv[k], inv[k], k, c, inv[k] * k % c); return 1; }
+      printf("characteristic %lld: table correct after re-initialisation\n", c); return 0;
+    }
     if (cls == "zp_ops") {
       if (op == "get_value_u") { Zp_field_operators<> f; unsigned p = U(1);
         // set_characteristic builds a table of size p: only replay small p through it, otherwise use a field of char p w/o table
